@@ -23,6 +23,46 @@ Theorem C20_margins_eq_spec : forall rows cols p,
     Some (mkG (spec_cum rows cols (pipeline_step p) p) (spec_non rows cols (pipeline_step p) p)).
 Proof. exact (fun rows cols p => check_margins_spec gen_margin_tables rows cols p C20_tables_ok). Qed.
 
+(* Per-run obligation read from the source of PandoraMachine.check_conf: the first round starts
+   with `self.margins = GlobalMargins()`. *)
+Theorem C20_check_resets_margins : gen_check_resets_margins = true.
+Proof. vm_compute. reflexivity. Qed.
+
+(* The same on ANY machine object: whatever margins [g] an earlier check of ANY pipeline left on
+   it and whatever `step` it holds, checking an accepted pipeline yields exactly the documented
+   entries of THIS pipeline -- in particular what a fresh machine yields (margins are a function
+   of the checked pipeline, not of the machine's past). *)
+Theorem C20_margins_any_history : forall rows cols p st0 g,
+  pipeline_shape p -> all_params_ok rows cols p = true ->
+  machine_check_margins gen_check_resets_margins gen_margin_tables (rows, cols) (rows, cols) st0 g p =
+    Some (mkG (spec_cum rows cols (pipeline_step p) p) (spec_non rows cols (pipeline_step p) p)).
+Proof.
+  rewrite C20_check_resets_margins.
+  exact (fun rows cols p st0 g => check_margins_any_machine gen_margin_tables rows cols p st0 g C20_tables_ok).
+Qed.
+
+Corollary C20_margins_same_as_fresh : forall rows cols p st0 g,
+  pipeline_shape p -> all_params_ok rows cols p = true ->
+  machine_check_margins gen_check_resets_margins gen_margin_tables (rows, cols) (rows, cols) st0 g p =
+  check_margins gen_margin_tables (rows, cols) (rows, cols) 1 g0 p.
+Proof.
+  intros rows cols p st0 g Hs Ho. rewrite (C20_margins_any_history rows cols p st0 g Hs Ho).
+  symmetry. exact (C20_margins_eq_spec rows cols p Hs Ho).
+Qed.
+
+(* Regression witness of the repaired defect (margins were never reset): without the reset,
+   checking B = [matching_cost; disparity] after A = [matching_cost; disparity; filter(median 3)]
+   on the same machine reports A's filter margin for B. *)
+Definition ex_A : list mstep :=
+  [ mkMs 0 MC FMedian 5 3 (1#1) 1; mkMs 1 Dsp FMedian 5 3 (1#1) 1; mkMs 2 Flt FMedian 5 3 (1#1) 1 ].
+Definition ex_B : list mstep := [ mkMs 0 MC FMedian 5 3 (1#1) 1; mkMs 1 Dsp FMedian 5 3 (1#1) 1 ].
+Theorem C20_stale_margins_before_fix :
+  exists gA, check_margins gen_margin_tables (9, 20) (9, 20) 1 g0 ex_A = Some gA /\
+    option_map g_non (machine_check_margins false gen_margin_tables (9, 20) (9, 20) 1 gA ex_B)
+      = Some [(2, mkMg 3 3 3 3)] /\
+    option_map g_non (machine_check_margins true gen_margin_tables (9, 20) (9, 20) 1 gA ex_B) = Some [].
+Proof. eexists. split; [vm_compute; reflexivity|]. split; vm_compute; reflexivity. Qed.
+
 (* the shape hypothesis is what C01's accepted language gives *)
 Theorem C20_accepted_has_shape : forall p d,
   path_ok Begin (map to_step p) = Some d -> NoDup (map ms_id p) -> pipeline_shape p.
@@ -80,6 +120,10 @@ Qed.
 
 Print Assumptions C20_tables_ok.
 Print Assumptions C20_margins_eq_spec.
+Print Assumptions C20_check_resets_margins.
+Print Assumptions C20_margins_any_history.
+Print Assumptions C20_margins_same_as_fresh.
+Print Assumptions C20_stale_margins_before_fix.
 Print Assumptions C20_accepted_has_shape.
 Print Assumptions C20_second_round_noop.
 Print Assumptions C20_global_formula.
